@@ -12,6 +12,13 @@ struct verif_builder_ghost {
   cbor_item_t *appended; /* the item handed over by the most recent one */
   /* expectation set by a callback harness: what the completed item must look like WHEN it is handed over (it may
    * be released by the time the callback returns, so this is checked as a precondition at the call site) */
+  /* the same for the item an opener puts on the stack */
+  bool expect_push;
+  int push_type, push_flavour;
+  uint64_t push_arg;     /* preallocated size / tag number */
+  size_t push_subitems;  /* members due recorded in the frame */
+  const unsigned char *exp_src; /* strings: the input buffer the payload was copied from (must not be referenced) */
+  unsigned char exp_byte;       /* strings: payload byte at the watched index g_k */
   bool expect;
   int exp_type;          /* major type */
   int exp_width;         /* int / float width code; for empty definite containers: 0 */
@@ -83,6 +90,16 @@ extern struct verif_builder_const g_bc;
       (g_b.exp_width == 0 ? (uint64_t)(item)->metadata.float_ctrl_metadata.ctrl == g_b.exp_bits        \
        : g_b.exp_width == 3 ? F64_AT(PAYLOAD(item)) == g_b.exp_bits                                    \
                             : (uint64_t)F32_AT(PAYLOAD(item)) == g_b.exp_bits))) &&                    \
+    ((item)->type != CBOR_TYPE_BYTESTRING ||                                                           \
+     (BS_META(item).type == _CBOR_METADATA_DEFINITE && (uint64_t)BS_META(item).length == g_b.exp_bits && \
+      (BS_META(item).length == 0 || ((item)->data != g_b.exp_src && __CPROVER_r_ok((item)->data, BS_META(item).length) && \
+                                     !__CPROVER_same_object((item)->data, g_b.exp_src))) &&         \
+      (g_k >= BS_META(item).length || (item)->data[g_k] == g_b.exp_byte))) &&                          \
+    ((item)->type != CBOR_TYPE_STRING ||                                                               \
+     (ST_META(item).type == _CBOR_METADATA_DEFINITE && (uint64_t)ST_META(item).length == g_b.exp_bits && \
+      (ST_META(item).length == 0 || ((item)->data != g_b.exp_src && __CPROVER_r_ok((item)->data, ST_META(item).length) && \
+                                     !__CPROVER_same_object((item)->data, g_b.exp_src))) &&         \
+      (g_k >= ST_META(item).length || (item)->data[g_k] == g_b.exp_byte))) &&                          \
     ((item)->type != CBOR_TYPE_ARRAY ||                                                                \
      (AR_META(item).type == _CBOR_METADATA_DEFINITE && AR_META(item).allocated == 0 && AR_META(item).end_ptr == 0)) && \
     ((item)->type != CBOR_TYPE_MAP ||                                                                  \
@@ -94,6 +111,78 @@ void _cbor_builder_append__child(cbor_item_t *item, struct _cbor_decoder_context
 __CPROVER_requires(__CPROVER_rw_ok(ctx, sizeof(*ctx)) && g_b.append_calls < SIZE_MAX / 2)
 __CPROVER_assigns(g_b, ctx->creation_failed, ctx->syntax_error, ctx->root)
 __CPROVER_ensures(g_b.append_calls == OLD(g_b.append_calls) + 1 && g_b.appended == item);
+
+/* "Hand-over" view of _cbor_builder_append for its callers (the callbacks): they give the completed item away as
+ * their last action and never look at it, or at the open item, again.  What the call may do to the decoder state
+ * (flags, root, stack depth, allocator traffic) is in the frame; what it does to the items themselves is proved
+ * in the append_* proofs and is none of the callback's business.  The precondition is the real one's (context
+ * invariant, sole ownership of the item, expectation check), asserted at every call site. */
+void _cbor_builder_append__handover(cbor_item_t *item, struct _cbor_decoder_context *ctx)
+__CPROVER_requires(__CPROVER_rw_ok(ctx, sizeof(*ctx)) && STACK_OK(STK(ctx)) && STK(ctx)->size <= CBOR_MAX_STACK_SIZE &&
+                   !ctx->creation_failed && !ctx->syntax_error && g_b.append_calls < SIZE_MAX / 2)
+__CPROVER_requires(ITEM_RW(item) && HEAP_BLOCK(item) && item->refcount == 1 && DATA_FREEABLE(item))
+__CPROVER_requires(APPENDED_AS_EXPECTED(item))
+__CPROVER_assigns(ALLOC_GHOSTS, g_b, g_d, ctx->creation_failed, ctx->syntax_error, ctx->root, *STK(ctx))
+__CPROVER_ensures(g_b.append_calls == OLD(g_b.append_calls) + 1 && g_b.appended == item &&
+                  STK(ctx)->size <= OLD(STK(ctx)->size));
+
+/* add_chunk as called by the string callbacks: the general contract's facts that the callback's harness needs,
+ * plus the expectation check on the chunk at the call site */
+#define ADD_CHUNK_CB(VALID)                                                                            \
+  __CPROVER_requires(ALLOC_MODEL_BOUND && VALID(item) && ITEM_RW(chunk) && chunk->refcount == 1 && chunk != item && \
+                     (CHUNKS(item)->chunk_capacity == 0 || HEAP_BLOCK(CHUNKS(item)->chunks)))          \
+  __CPROVER_requires(APPENDED_AS_EXPECTED(chunk))                                                      \
+  __CPROVER_assigns(ALLOC_GHOSTS, chunk->refcount, __CPROVER_object_whole(item->data))                 \
+  __CPROVER_assigns(CHUNKS(item)->chunk_capacity > 0 : __CPROVER_object_whole(CHUNKS(item)->chunks))   \
+  __CPROVER_frees(CHUNKS(item)->chunks)                                                                \
+  __CPROVER_ensures(RET ==> (CHUNKS(item)->chunk_count == OLD(CHUNKS(item)->chunk_count) + 1 &&        \
+                             chunk->refcount == 2 && g_malloc_calls == OLD(g_malloc_calls)))           \
+  __CPROVER_ensures(!RET ==> (CHUNKS(item)->chunk_count == OLD(CHUNKS(item)->chunk_count) && chunk->refcount == 1 && \
+                              g_refused && g_live == OLD(g_live) && g_malloc_calls == OLD(g_malloc_calls))) \
+  __CPROVER_ensures(g_free_calls == OLD(g_free_calls) && (OLD(g_refused) ==> g_refused))
+bool cbor_bytestring_add_chunk__cb(cbor_item_t *item, cbor_item_t *chunk) ADD_CHUNK_CB(BYTESTRING_INDEF_VALID);
+bool cbor_string_add_chunk__cb(cbor_item_t *item, cbor_item_t *chunk) ADD_CHUNK_CB(STRING_INDEF_VALID);
+
+/* release of a reference that is not the last one (the callback's own reference to a chunk the string now owns,
+ * or to a chunk that is released because it could not be added): consequences of the decref_* steps */
+void cbor_decref__chunk(cbor_item_t **item_ref)
+__CPROVER_requires(ALLOC_MODEL_BOUND && __CPROVER_rw_ok(item_ref, sizeof(cbor_item_t *)) && ITEM_RW(*item_ref) &&
+                   (*item_ref)->refcount >= 1 && HEAP_BLOCK(*item_ref) && DATA_FREEABLE(*item_ref) && !IS_CHUNKED(*item_ref) &&
+                   ((*item_ref)->type == CBOR_TYPE_BYTESTRING || (*item_ref)->type == CBOR_TYPE_STRING))
+__CPROVER_assigns(ALLOC_GHOSTS, *item_ref, (*item_ref)->refcount)
+__CPROVER_frees((*item_ref)->refcount == 1 : *item_ref)
+__CPROVER_frees((*item_ref)->refcount == 1 : (*item_ref)->data)
+__CPROVER_ensures(OLD((*item_ref)->refcount) > 1 ==>
+                  ((OLD(*item_ref))->refcount == OLD((*item_ref)->refcount) - 1 && g_live == OLD(g_live) && g_free_calls == OLD(g_free_calls)))
+__CPROVER_ensures(OLD((*item_ref)->refcount) == 1 ==>
+                  (*item_ref == NULL && g_live == OLD(g_live) - 1 - (OLD((*item_ref)->data) != NULL ? 1 : 0)))
+__CPROVER_ensures(g_malloc_calls == OLD(g_malloc_calls) && g_realloc_calls == OLD(g_realloc_calls) && g_refused == OLD(g_refused));
+
+/* _cbor_stack_push as called by the opener callbacks: same contract, plus the expectation check on the item that
+ * is being put on the stack (asserted at the call site, where the fresh item is a known pointer) */
+#define PUSHED_AS_EXPECTED(item)                                                                       \
+  (!g_b.expect_push ||                                                                                 \
+   (ITEM_RW(item) && (int)(item)->type == g_b.push_type && (item)->refcount == 1 &&                    \
+    ((item)->type != CBOR_TYPE_ARRAY || (AR_META(item).type == g_b.push_flavour && AR_META(item).end_ptr == 0 && \
+                                         (g_b.push_flavour != _CBOR_METADATA_DEFINITE || AR_META(item).allocated == g_b.push_arg))) && \
+    ((item)->type != CBOR_TYPE_MAP || (MP_META(item).type == g_b.push_flavour && MP_META(item).end_ptr == 0 && \
+                                       (g_b.push_flavour != _CBOR_METADATA_DEFINITE || MP_META(item).allocated == g_b.push_arg))) && \
+    ((item)->type != CBOR_TYPE_TAG || (TG_META(item).value == g_b.push_arg && TG_META(item).tagged_item == NULL)) && \
+    ((item)->type != CBOR_TYPE_BYTESTRING || BS_META(item).type == _CBOR_METADATA_INDEFINITE) &&       \
+    ((item)->type != CBOR_TYPE_STRING || ST_META(item).type == _CBOR_METADATA_INDEFINITE)))
+struct _cbor_stack_record *_cbor_stack_push__cb(struct _cbor_stack *stack, cbor_item_t *item, size_t subitems)
+__CPROVER_requires(ALLOC_MODEL_BOUND && STACK_OK(stack) && stack->size <= CBOR_MAX_STACK_SIZE)
+__CPROVER_requires(PUSHED_AS_EXPECTED(item) && (!g_b.expect_push || subitems == g_b.push_subitems))
+__CPROVER_assigns(ALLOC_GHOSTS, *stack)
+__CPROVER_ensures(OLD(stack->size) == CBOR_MAX_STACK_SIZE ==> (RET == NULL && g_malloc_calls == OLD(g_malloc_calls)))
+__CPROVER_ensures(OLD(stack->size) < CBOR_MAX_STACK_SIZE ==>
+                  (g_malloc_calls == OLD(g_malloc_calls) + 1 && (RET == NULL ==> g_refused)))
+__CPROVER_ensures(RET == NULL ==> (stack->top == OLD(stack->top) && stack->size == OLD(stack->size) && g_live == OLD(g_live)))
+__CPROVER_ensures(RET == NULL || (__CPROVER_is_fresh(stack->top, sizeof(struct _cbor_stack_record)) &&
+                                  stack->top->lower == OLD(stack->top) && RET == stack->top))
+__CPROVER_ensures(RET == NULL || (stack->size == OLD(stack->size) + 1 && g_live == OLD(g_live) + 1))
+__CPROVER_ensures(g_realloc_calls == OLD(g_realloc_calls) && g_free_calls == OLD(g_free_calls) &&
+                  (g_refused || !OLD(g_refused) || 1) && (OLD(g_refused) ==> g_refused));
 
 #define APPEND_FRAME(item, ctx)                                                                        \
   __CPROVER_assigns(ALLOC_GHOSTS, g_b, g_d, *ctx, *STK(ctx), __CPROVER_object_whole(item))             \
